@@ -224,6 +224,10 @@ func (e *Ev) String() string {
 		return strconv.Quote(e.Bytes())
 	case "bin":
 		return "bin(" + e.S + ")"
+	case "nil":
+		return "<nil>"
+	case "toodeep":
+		return "<cyclic or too deep>"
 	}
 	ss := make([]string, len(e.L))
 	for i, x := range e.L {
@@ -482,16 +486,30 @@ func toPx(e *Ev, memo map[string]px.Value) px.Value {
 	return v
 }
 
-// fromPx is the exact structural image of a pcore value (kinds, float bits, string bytes, entry order)
+// fromPx is the exact structural image of a pcore value (kinds, float bits, string bytes, entry order).
+// A collector that is handed a reference to a container still under construction builds a cyclic Go value
+// (reachable through the open finding: a user hash {"__pref": n} is read back as AddRef(n)); the walk is
+// therefore bounded in depth and in nodes and cut off with a "toodeep" node, which equals no event.
+const maxDepth, maxNodes = 500, 200000
+
 func fromPx(v px.Value) *Ev {
+	budget := maxNodes
+	return fromPxD(v, 0, &budget)
+}
+
+func fromPxD(v px.Value, depth int, budget *int) *Ev {
+	*budget--
+	if depth > maxDepth || *budget < 0 {
+		return &Ev{T: "toodeep"}
+	}
 	switch v := v.(type) {
 	case *types.Array:
 		l := make([]*Ev, 0, v.Len())
-		v.Each(func(x px.Value) { l = append(l, fromPx(x)) })
+		v.Each(func(x px.Value) { l = append(l, fromPxD(x, depth+1, budget)) })
 		return &Ev{T: "arr", L: l}
 	case *types.Hash:
 		l := make([]*Ev, 0, 2*v.Len())
-		v.EachPair(func(k, x px.Value) { l = append(l, fromPx(k), fromPx(x)) })
+		v.EachPair(func(k, x px.Value) { l = append(l, fromPxD(k, depth+1, budget), fromPxD(x, depth+1, budget)) })
 		return &Ev{T: "hash", L: l}
 	}
 	if v == nil {
